@@ -5,6 +5,11 @@ ROOT = os.path.dirname(os.path.dirname(os.path.abspath(__file__)))
 props = [json.loads(l)["id"] for l in open(os.path.join(ROOT, "properties.jsonl"))]
 
 CHECKS = {
+ "C03": dict(
+  technique="proptest over packet models built by construction (boundary-directed sizes, representable and unrepresentable models, even/odd buffer alignment); differential against an independent wire decoder/encoder and RFC 1071 checksum; round trip; reference-encoded canonical byte strings",
+  text="Exploration: each generated model is encoded by the SUT and read back by an independently written decoder (fields, truthful HdrLen/PayloadLen/UDP length, zero reserved bits, checksum over pseudo-header||message), decoded again by the SUT (equal model, no rest); encoding into a dirty buffer must equal encoding into a fresh Vec; canonical byte strings produced by the reference encoder must decode and re-encode identically; models that cannot be represented must be rejected (any accepted model has to pass all of the above).",
+  note="Reference decoder written from the SCION header/SCMP diagrams; IPv4/IPv6 host semantics not interpreted; SCMP error models truncate their quote by design (checked as maximal prefix + re-encode stability); extension headers (HBH/E2E) are outside the SDK's model and not generated.",
+  design="DESIGN.md §3 C03"),
  "C15": dict(
   technique="exhaustive enumeration of short strings and single-character edits + proptest random strings/values, differential against an independent reference grammar, display/parse round trip",
   text="Exploration: every (type,string) pair generated is compared (acceptance and value) with an independently written grammar; parse(display(v))==v and the serde string form are checked on generated values of all 15 address/identifier types; the DNS TXT payload parser is compared with the module's ABNF. Sub-domains enumerated completely: all strings of length<=3 over a 24-character alphabet, all single-character edits of the valid spellings of 8 base values.",
